@@ -22,7 +22,9 @@ intro = ("Changes written by independent sub-agents that were given only the tex
          "the last column. Each directory holds `patch.diff`, `demo_test.go`, `README.md` (the author's), `verify.log`,\n"
          "`meta.json`. Attempts that did not survive the confirmation (an existing randomized test of Pebble catches\n"
          "them) are listed in `seeded/REJECTED.md` and are not counted. Detection is by the quick tier unless the\n"
-         "last column says otherwise (C39-1: thorough tier only; C22-2: still missed).\n\n" % (n, first))
+         "last column says otherwise (C39-1: thorough tier only; C22-2: still missed). On the final tree the\n"
+         "quick-tier detection of 24 of them was run once more (C01-1 C03-1 C03-2 C06-1 C06-2 C07-2 C08-1 C10-1 C11-1\n"
+         "C11-2 C14-1 C15-1 C20-1 C21-1 C24-1 C25-2 C36-1 C37-1 C38-1 C40-1 C43-1 C44-1 C45-1 C47-1): all reported.\n\n" % (n, first))
 open(os.path.join(V, "seeded", "README.md"), "w").write("# Seeded property-breaking changes\n\n" + intro + table)
 dp = os.path.join(V, "DESIGN.md")
 s = open(dp).read()
